@@ -617,6 +617,30 @@ def gen_trace(rng, T, n):
     return evs
 
 
+def gen_reopen_burst(rng, T):
+    """the connection (or only its checker) is stopped and started again a few times within one check interval, then the
+    broker keeps sending a frame a little less than T/2 apart for a long time: no timer of an earlier incarnation may
+    still be checking (several chains looking at one read counter declare a live peer dead), and time advances in
+    steps that are not multiples of the check interval"""
+    half = T                              # T/2 in half-seconds (the model's clock counts whole half-seconds)
+    evs = [('open',)]
+    for _ in range(rng.randint(2, 4)):
+        evs.append(('adv', max(1, half * rng.randint(1, 4) // 10)))
+        if rng.random() < 0.5:
+            evs += [('close',), ('open',)]
+        else:
+            evs += [('stop',), ('start', True)]
+    gap = max(1, min(half - 1, int(half * rng.choice([Fraction(9, 10), Fraction(3, 4), Fraction(19, 20), Fraction(1, 2)]))))
+    for _ in range(rng.randint(6, 20)):
+        evs.append(('adv', gap))
+        evs.append(('bytes', inbound_frame(rng).hex()))
+        if rng.random() < 0.2:
+            evs.append(('write', 1))
+        if rng.random() < 0.1:
+            evs.append(('probe',))
+    return evs
+
+
 ALPHABET = [('bytes', HB_BYTES.hex()), ('write', 1), ('tick',), ('stop',), ('start', True)]
 
 
@@ -748,6 +772,14 @@ def check(rep):
             record(T, [list(e) for e in evs], sim, projs, inj_seed, True, 'random')
             rep.count('injected', sum(1 for g in sim.groups if any(x.startswith('f') for x in g)
                                       and sum(1 for x in g if x in ('r', 'w')) > 0) > 0)
+
+    for T in TS:
+        if T < 2:
+            continue
+        for k in range(40 if thorough else 6):
+            evs = gen_reopen_burst(rng, T)
+            sim, projs = run_history(T, evs, 0, False)
+            record(T, [list(e) for e in evs], sim, projs, 0, False, 'reopen-burst')
 
     # interval kernel
     for T in TS + [None, -1, -7, 5, 7]:
